@@ -714,7 +714,7 @@ async fn run(sc: Script) -> String {
         _ => out.push("R-:-:-".into()),
     }
     for (i, c) in g.conns.iter().enumerate() {
-        let closed = c.closed_at.filter(|s| *s <= nsteps + 1);
+        let closed = c.closed_at.filter(|s| c.accepted && *s <= nsteps + 1);
         out.push(format!("c{}:{}:{}", i, c.accepted as u8, idx(closed)));
     }
     for (j, c) in g.calls.iter().enumerate() {
@@ -750,14 +750,151 @@ pub fn execute(case: &str) -> String {
     })
 }
 
-pub fn generate(_tier: &str, _rng: &mut Rng) -> Vec<String> {
+// ---------------------------------------------------------------- generators
+
+const BUFS: [usize; 9] = [24, 25, 32, 33, 64, 100, 1024, 16384, 65536];
+// payload sizes: around the gRPC prefix, the default h2 frame size (16384) and the default
+// flow-control window (65535)
+const PAYLOADS_SMALL: [usize; 6] = [0, 1, 10, 11, 300, 1000];
+const PAYLOADS_BIG: [usize; 8] = [16379, 16380, 16384, 20000, 65530, 65535, 65536, 70000];
+const CODES: [i32; 4] = [0, 0, 5, 13];
+
+#[derive(Clone)]
+struct Gen {
+    ops: Vec<String>,
+    nconn: usize,
+    // per call: (conn, phases needed, phases released so far)
+    calls: Vec<(usize, usize, usize)>,
+}
+
+impl Gen {
+    fn new() -> Self {
+        Gen { ops: Vec::new(), nconn: 0, calls: Vec::new() }
+    }
+    fn conn(&mut self) -> usize {
+        self.ops.push("C".into());
+        self.nconn += 1;
+        self.nconn - 1
+    }
+    fn unary(&mut self, c: usize, s: i32) -> usize {
+        self.ops.push(format!("U{}:{}", c, s));
+        self.calls.push((c, 1, 0));
+        self.calls.len() - 1
+    }
+    fn stream(&mut self, c: usize, n: usize, s: i32) -> usize {
+        self.ops.push(format!("S{}:{}:{}", c, n, s));
+        self.calls.push((c, n + 2, 0));
+        self.calls.len() - 1
+    }
+    fn adv(&mut self, k: usize) {
+        self.ops.push(format!("A{}", k));
+        self.calls[k].2 += 1;
+    }
+    fn unfinished(&self) -> Vec<usize> {
+        (0..self.calls.len()).filter(|k| self.calls[*k].2 < self.calls[*k].1).collect()
+    }
+}
+
+fn header(mode: &str, buf: usize, payload: usize, age: bool) -> String {
+    format!("sc {} b{} p{} a{}", mode, buf, payload, age as u8)
+}
+
+fn pick_sizes(rng: &mut Rng, ncalls: usize) -> (usize, usize) {
+    let buf = *rng.pick(&BUFS);
+    let payload = if ncalls <= 3 && rng.chance(1, 5) { *rng.pick(&PAYLOADS_BIG) } else { *rng.pick(&PAYLOADS_SMALL) };
+    (buf, payload)
+}
+
+/// A random base scenario without any shutdown trigger: connections, calls, handler phases, in a
+/// random interleaving; every op is one token.
+fn base_scenario(rng: &mut Rng, max_conn: usize, max_calls: usize, finish: bool) -> Gen {
+    let mut g = Gen::new();
+    let nconn = rng.range(1, max_conn as u64) as usize;
+    let ncalls = rng.range(1, max_calls as u64) as usize;
+    g.conn();
+    let mut issued = 0;
+    let mut guard = 0;
+    while guard < 200 {
+        guard += 1;
+        let unf = g.unfinished();
+        let can_conn = g.nconn < nconn;
+        let can_call = issued < ncalls;
+        if !can_conn && !can_call && (unf.is_empty() || !finish && rng.chance(1, 4)) {
+            break;
+        }
+        match rng.below(4) {
+            0 if can_conn => {
+                g.conn();
+            }
+            1 if can_call => {
+                let c = rng.below(g.nconn as u64) as usize;
+                let s = *rng.pick(&CODES);
+                if rng.chance(1, 2) {
+                    g.unary(c, s);
+                } else {
+                    let n = *rng.pick(&[0usize, 1, 2, 2, 3]);
+                    g.stream(c, n, s);
+                }
+                issued += 1;
+            }
+            _ => {
+                if !unf.is_empty() {
+                    let k = *rng.pick(&unf);
+                    g.adv(k);
+                }
+            }
+        }
+    }
+    g
+}
+
+/// insert `tok` (possibly several tokens) at position `at`
+fn insert_at(ops: &[String], at: usize, toks: &[String]) -> Vec<String> {
+    let mut v = ops[..at].to_vec();
+    v.extend_from_slice(toks);
+    v.extend_from_slice(&ops[at..]);
+    v
+}
+
+fn late_probe(nconn: usize) -> Vec<String> {
+    // a connection offered after the signal, and a call on it
+    vec!["C".into(), format!("U{}:0", nconn)]
+}
+
+/// mark some steps as non-quiescent (`~k`), never ones that need a quiescent state
+fn add_races(ops: &[String], rng: &mut Rng, density: u64) -> Vec<String> {
+    let needs_quiet = |t: &String| t.starts_with('D') || t.starts_with('X') || t == "T";
     let mut out = Vec::new();
+    for (i, t) in ops.iter().enumerate() {
+        let next_quiet = ops.get(i + 1).map(needs_quiet).unwrap_or(false);
+        if !needs_quiet(t) && !next_quiet && rng.chance(density, 10) {
+            let k = *rng.pick(&[0u64, 0, 0, 1, 1, 2, 5]);
+            out.push(format!("{}~{}", t, k));
+        } else {
+            out.push(t.clone());
+        }
+    }
+    out
+}
+
+fn corpus() -> Vec<String> {
+    let mut out = Vec::new();
+    // witnesses of the accept-after-signal race in the unrepaired accept loop (each is decided by
+    // one coin of `select!`, hence the repetition over sizes)
+    for b in BUFS {
+        for k in [0, 0, 0] {
+            out.push(format!("sc g b{} p10 a0 G~{} C", b, k));
+            out.push(format!("sc g b{} p10 a0 C U0:0 G~{} C U1:0 A0", b, k));
+            out.push(format!("sc g b{} p10 a0 G~0 C~0 C~0 C", b));
+        }
+    }
     for s in [
         "sc g b1024 p10 a0 C U0:0 G A0",
         "sc g b1024 p10 a0 C U0:0 A0 G",
         "sc g b1024 p10 a0 C G U0:0",
         "sc g b1024 p10 a0 C S0:2:0 A0 G A0 A0 A0",
         "sc g b1024 p10 a0 C S0:2:5 A0 A0 G A0 A0 C U1:0",
+        "sc g b1024 p10 a0 C S0:2:0 A0 G C U1:0 A0 A0 A0",
         "sc g b1024 p10 a0 C C U0:0 U1:0 G A0 A1",
         "sc g b1024 p10 a0 C U0:0 E A0",
         "sc n b1024 p10 a0 C U0:0 E A0",
@@ -766,8 +903,146 @@ pub fn generate(_tier: &str, _rng: &mut Rng) -> Vec<String> {
         "sc g b1024 p10 a1 C U0:0 T C U0:0 U1:0 A0",
         "sc g b1024 p10 a0 Io C Ir U0:0 G",
         "sc g b1024 p10 a0 C S0:2:0 A0 X0 G",
+        "sc g b32 p70000 a0 C S0:2:0 U0:0 A0 A0 G A1 A0 A0",
+        "sc g b1024 p10 a0 C U0:0~0 G A0",
+        "sc g b1024 p10 a0 C~0 U0:0~0 G A0",
+        "sc g b1024 p10 a0 C G~0 U0:0 A0",
+        "sc g b24 p10 a0 C U0:0~0 G A0",
+        "sc g b1024 p10 a0 G",
+        "sc g b1024 p10 a0 E",
+        "sc n b1024 p10 a0 E",
+        "sc g b1024 p10 a0 G E G E C",
+        "sc g b1024 p10 a0",
     ] {
         out.push(s.to_string());
+    }
+    out
+}
+
+/// the signal at every phase boundary of every call: all insertion points of `G` (and `E`) into a
+/// scenario whose handler phases are spelled out one per step
+fn placements(out: &mut Vec<String>, rng: &mut Rng, g: &Gen, mode: &str, trig: &str, probe: bool, races: u64) {
+    let (buf, payload) = pick_sizes(rng, g.calls.len());
+    for at in 0..=g.ops.len() {
+        let mut ops = insert_at(&g.ops, at, &[trig.to_string()]);
+        if probe {
+            // the late connection goes in somewhere after the trigger
+            // (after the last base connection, so that connection indices stay as they are)
+            let last_c = ops.iter().rposition(|t| t == "C").map(|i| i + 1).unwrap_or(0);
+            let lo = (at + 1).max(last_c);
+            let pos = rng.range(lo as u64, ops.len() as u64) as usize;
+            ops = insert_at(&ops, pos, &late_probe(g.nconn));
+        }
+        if races > 0 {
+            ops = add_races(&ops, rng, races);
+        }
+        out.push(format!("{} {}", header(mode, buf, payload, false), ops.join(" ")));
+    }
+}
+
+fn structured(out: &mut Vec<String>, rng: &mut Rng, n: usize, max_conn: usize, max_calls: usize) {
+    for i in 0..n {
+        let finish = rng.chance(3, 4);
+        let g = base_scenario(rng, max_conn, max_calls, finish);
+        match i % 8 {
+            0 | 1 => placements(out, rng, &g, "g", "G", true, 0),
+            2 => placements(out, rng, &g, "g", "G", false, 0),
+            3 => {
+                let probe = rng.chance(1, 2);
+                placements(out, rng, &g, "g", "E", probe, 0)
+            }
+            4 => placements(out, rng, &g, "n", "E", false, 0),
+            5 | 6 => placements(out, rng, &g, "g", "G", true, 3),
+            _ => placements(out, rng, &g, "g", "E", true, 2),
+        }
+    }
+}
+
+/// clients that leave or cancel, accept errors, connection age, repeated and useless operations
+fn disturbed(out: &mut Vec<String>, rng: &mut Rng, n: usize, max_conn: usize, max_calls: usize) {
+    for _ in 0..n {
+        let finish = rng.chance(1, 2);
+        let g = base_scenario(rng, max_conn, max_calls, finish);
+        let age = rng.chance(1, 3);
+        let mode = if rng.chance(1, 6) { "n" } else { "g" };
+        let mut ops = g.ops.clone();
+        let extra = rng.range(1, 5);
+        for _ in 0..extra {
+            let at = rng.range(0, ops.len() as u64) as usize;
+            // how many connections / calls exist before position `at`
+            let nc = ops[..at].iter().filter(|t| t.as_str() == "C").count();
+            let nk = ops[..at].iter().filter(|t| t.starts_with('U') || t.starts_with('S')).count();
+            let tok: Option<String> = match rng.below(10) {
+                0 | 1 => Some("G".into()),
+                2 => Some("E".into()),
+                3 if nc > 0 => Some(format!("D{}", rng.below(nc as u64))),
+                4 if nk > 0 => Some(format!("X{}", rng.below(nk as u64))),
+                5 if age => Some("T".into()),
+                6 => Some(if rng.chance(1, 2) { "Ir".into() } else { "Io".into() }),
+                7 if nk > 0 => Some(format!("A{}", rng.below(nk as u64))),
+                8 => Some("G".into()),
+                _ => None,
+            };
+            if let Some(t) = tok {
+                ops = insert_at(&ops, at, &[t]);
+            }
+        }
+        if rng.chance(1, 3) {
+            // a late connection and a call on it at the very end
+            let nc = ops.iter().filter(|t| t.as_str() == "C").count();
+            ops.extend(late_probe(nc));
+        }
+        if rng.chance(1, 4) {
+            ops = add_races(&ops, rng, 2);
+        }
+        let (buf, payload) = pick_sizes(rng, g.calls.len());
+        out.push(format!("{} {}", header(mode, buf, payload, age), ops.join(" ")));
+    }
+}
+
+/// thorough tier: every scenario up to a length bound over a small alphabet (one connection
+/// pre-offered or not, two calls at most)
+fn exhaustive(out: &mut Vec<String>, max_len: usize) {
+    let alphabet = ["C", "U", "S", "A0", "A1", "G", "E", "D0", "X0"];
+    fn rec(out: &mut Vec<String>, alphabet: &[&str], cur: &mut Vec<String>, nconn: usize, ncall: usize, left: usize) {
+        if !cur.is_empty() {
+            out.push(format!("sc g b1024 p10 a0 {}", cur.join(" ")));
+        }
+        if left == 0 {
+            return;
+        }
+        for a in alphabet {
+            let (tok, nc, nk) = match *a {
+                "C" if nconn < 2 => ("C".to_string(), nconn + 1, ncall),
+                "U" if nconn > 0 && ncall < 2 => (format!("U{}:0", nconn - 1), nconn, ncall + 1),
+                "S" if nconn > 0 && ncall < 2 => (format!("S{}:1:5", nconn - 1), nconn, ncall + 1),
+                "A0" if ncall > 0 => ("A0".to_string(), nconn, ncall),
+                "A1" if ncall > 1 => ("A1".to_string(), nconn, ncall),
+                "G" | "E" => (a.to_string(), nconn, ncall),
+                "D0" if nconn > 0 => ("D0".to_string(), nconn, ncall),
+                "X0" if ncall > 0 => ("X0".to_string(), nconn, ncall),
+                _ => continue,
+            };
+            cur.push(tok);
+            rec(out, alphabet, cur, nc, nk, left - 1);
+            cur.pop();
+        }
+    }
+    let mut cur = Vec::new();
+    rec(out, &alphabet, &mut cur, 0, 0, max_len);
+}
+
+pub fn generate(tier: &str, rng: &mut Rng) -> Vec<String> {
+    let thorough = tier == "thorough";
+    let mut out = corpus();
+    if thorough {
+        structured(&mut out, rng, 1500, 4, 6);
+        disturbed(&mut out, rng, 8000, 4, 6);
+        exhaustive(&mut out, 6);
+    } else {
+        structured(&mut out, rng, 160, 3, 4);
+        disturbed(&mut out, rng, 800, 3, 4);
+        exhaustive(&mut out, 4);
     }
     out
 }
